@@ -48,6 +48,49 @@ fn internal_class(s: &str) -> bool {
     s.contains("ERR<Internal>") || s.contains("ERR<WorkerDied>") || s.contains("ERR<Io>") || s.contains("ERR<NotFound>") || s.contains("ERR<OutOfCache>")
 }
 
+thread_local! {
+    static REDUCED: std::cell::RefCell<BTreeMap<(String, u32), BTreeMap<String, Vec<usize>>>> = std::cell::RefCell::new(BTreeMap::new());
+}
+
+/// True if every failing client failed ONLY with an explicit out-of-memory error (cache below 24 pages) or a
+/// conflict error, has a single operation, and the remaining clients' results and the final contents are
+/// what some serial order of the remaining transactions produces.
+fn resource_abort_explains(sc: &Scenario, results: &[Vec<String>], final_audit: &str) -> bool {
+    let mut mask = 0u32;
+    for (i, r) in results.iter().enumerate() {
+        let oom = r.len() == 1 && r[0] == "ERR<OutOfCache>" && sc.cfg.cache < 24;
+        let conflict = r.len() == 1 && r[0] == "ERR<Conflict>";
+        if oom || conflict {
+            mask |= 1 << i;
+        } else if r.iter().any(|x| x.starts_with("ERR<OutOfCache>") || x.starts_with("ERR<Conflict>")) {
+            return false;
+        }
+    }
+    if mask == 0 {
+        return false;
+    }
+    let mut reduced = sc.clone();
+    for i in 0..reduced.clients.len() {
+        if mask & (1 << i) != 0 {
+            reduced.clients[i] = vec![];
+        }
+    }
+    let observed: Vec<Vec<String>> = results.iter().enumerate().map(|(i, r)| if mask & (1 << i) != 0 { vec![] } else { r.clone() }).collect();
+    let key = (sc.name.to_string(), mask);
+    REDUCED.with(|c| {
+        let mut c = c.borrow_mut();
+        if !c.contains_key(&key) {
+            match serial_outcomes(&reduced) {
+                Ok(a) => {
+                    c.insert(key.clone(), a);
+                }
+                Err(_) => return false,
+            }
+        }
+        c[&key].contains_key(&outcome_string(&observed, final_audit))
+    })
+}
+
 fn run_controlled(si: usize, sc: &Scenario, prefix: &[u8], bound: u32, allowed: &BTreeMap<String, Vec<usize>>) -> ExecResult {
     let mut r = ExecResult { scenario: si, prefix: prefix.to_vec(), ..Default::default() };
     let (db, dir) = match fresh_db(sc) {
@@ -82,8 +125,7 @@ fn run_controlled(si: usize, sc: &Scenario, prefix: &[u8], bound: u32, allowed: 
             }
         }
     }
-    let a = audit(&db, sc);
-    drop(db);
+    let a = audit_twice(db, &dir, sc);
     let _ = std::fs::remove_dir_all(&dir);
     r.picks = trace.points.iter().map(|p| p.chosen).collect();
     r.points = trace.points.len();
@@ -96,6 +138,11 @@ fn run_controlled(si: usize, sc: &Scenario, prefix: &[u8], bound: u32, allowed: 
         r.detail = format!("a client thread panicked inside the engine: {}", last_panic());
     } else if allowed.contains_key(&r.outcome) {
         r.ok = true;
+    } else if resource_abort_explains(sc, &results, &a) {
+        // a client whose only statement failed with an explicit out-of-memory error of a cache below the
+        // documented range (or a write-write conflict) counts as not having run: the rest must be serial
+        r.ok = true;
+        r.outcome = format!("{} [accepted: explicit resource error, rest serial]", r.outcome);
     } else if internal_class(&r.outcome) {
         r.failure = "internal-error".into();
         r.detail = format!("a statement failed for internal reasons: {}", errtexts.join(" / ").chars().take(400).collect::<String>());
@@ -291,6 +338,9 @@ fn finding_for(listed: &BTreeSet<String>, sc: &str, r: &ExecResult) -> Option<St
         ("increment-same-row", "outcome-not-serial") if r.outcome.starts_with("T0: count=1 | T1: count=1 || final: a=rows[(1,11) (2,20)]") => "KC-no-ww-conflict-lost-update",
         // DROP TABLE frees the table's pages at statement time; a reader that resolved the name before fails on the freed pages
         ("drop-vs-select", "internal-error") if r.outcome.starts_with("T0: ddl-ok | T1: ERR<Internal>") && (r.detail.contains("Expected btreepage frame") || r.detail.contains("failed to fill whole buffer")) => "KC-drop-frees-pages-under-reader",
+        // an insert that runs out of cache frames in the middle of a leaf split (two clients pinning frames of a
+        // 12-page cache) fails with the explicit error but leaves its table without the rows of the split-off half
+        ("eviction-overflow-inserters", "internal-error") if r.outcome.contains("ERR<OutOfCache>") && r.detail.contains("Buffer pool got out of memory") => "KC-oom-mid-split-loses-rows",
         _ => return None,
     };
     if listed.contains(id) { Some(id.to_string()) } else { None }
